@@ -350,7 +350,7 @@ def run(ctx, report: Report) -> None:
     trailing_whitespace_table(ctx, r2)
 
     # ---- R7 (texts compiled by interpretation, bounded) -----------------------------------------------------------------
-    r7 = report.rule('C09-R7', 'respellings compile to one structure (selector texts compiled by interpretation; bounded)', floor=15)
+    r7 = report.rule('C09-R7', 'respellings compile to one structure (selector texts compiled by interpretation; bounded)', floor=19)
     from .e2etab import equivalent_spellings_table, respelling_table
     respelling_table(ctx, r7, deep=(ctx.tier == 'thorough'))
     equivalent_spellings_table(ctx, r7)
